@@ -246,6 +246,25 @@ def run(ctx):
         for text in (f"{sym}^{k}", f"{sym}{sup}", f"3 {sym}^{k}", f"2.5 {sym}{sup}/s"):
             one(text, "after_refused_operation")
     parses_while_another_thread_declares(ctx, env, attempt)
+    # the program tightens the interpreter's limit on integer strings after the library was imported (the documented
+    # hardening against untrusted input, sys.set_int_max_str_digits): literals longer than the limit in force NOW are
+    # ParseErrors like any other unreadable number
+    import sys as _sys
+    if hasattr(_sys, "set_int_max_str_digits"):
+        before_limit = _sys.get_int_max_str_digits()
+        for limit in (640, 1000, 2000):
+            try:
+                _sys.set_int_max_str_digits(limit)
+            except ValueError:
+                continue
+            try:
+                for digits in (limit - 1, limit, limit + 1, limit + 300, 4300, 4301):
+                    run_ = rng.choice("123456789") + "".join(rng.choice("0123456789") for _ in range(digits - 1))
+                    for text in (f"m^{run_}", f"m^-{run_}", f"km/s^{run_}", f"{run_} m", f"-{run_} s", f"m{run_.translate(str.maketrans('0123456789', '⁰¹²³⁴⁵⁶⁷⁸⁹'))}"):
+                        ctx.count("parses_under_a_limit_lowered_after_import")
+                        one(text, "int_limit_lowered_at_run_time")
+            finally:
+                _sys.set_int_max_str_digits(before_limit)
     n = ctx.scale(120000, 10_000_000) // 2
     for i in range(n):
         text, kind = gen.any_text()
